@@ -264,6 +264,25 @@ func (w *websocketPeer) Close() {
 
 // sendHandler pulls messages from the write channel, and pushes them to the
 // websocket.
+// drainQueued writes the messages that were queued before the peer was closed,
+// such as the GOODBYE or ABORT that ends the session.
+func (w *websocketPeer) drainQueued() {
+	for {
+		select {
+		case msg := <-w.wr:
+			b, err := w.serializer.Serialize(msg)
+			if err != nil {
+				continue
+			}
+			if err = w.conn.WriteMessage(w.payloadType, b); err != nil {
+				return
+			}
+		default:
+			return
+		}
+	}
+}
+
 func (w *websocketPeer) sendHandler() {
 	defer close(w.writerDone)
 	defer w.cancelSender()
@@ -299,6 +318,7 @@ sendLoop:
 				w.log.Print(err)
 			}
 		case <-w.ctxSender.Done():
+			w.drainQueued()
 			return
 		}
 	}
@@ -364,6 +384,7 @@ recvLoop:
 				w.log.Print(err)
 			}
 		case <-senderDone:
+			w.drainQueued()
 			return
 		}
 	}
